@@ -157,8 +157,11 @@ func cmdFn(args []string) int {
 		_ = os.MkdirAll(scratch, 0o755)
 	}
 	bad := 0
+	for _, m := range w.stale {
+		fmt.Println("STALE:", m)
+	}
 	for _, c := range w.byKeySorted() {
-		if c.IsExtern {
+		if c.IsExtern || c.Stale != "" || c.Fn == nil {
 			continue
 		}
 		match := false
@@ -273,6 +276,7 @@ func cmdCheck(args []string) int {
 	var results []*FuncResult
 	var all []*Obligation
 	var trustedList []string
+	var staleMsgs []string
 	for _, c := range w.byKeySorted() {
 		has := false
 		for _, p := range c.Props {
@@ -283,6 +287,10 @@ func cmdCheck(args []string) int {
 		if !has {
 			continue
 		}
+		if c.Stale != "" {
+			staleMsgs = append(staleMsgs, c.Stale)
+			continue
+		}
 		if c.IsExtern || c.Trusted != "" {
 			trustedList = append(trustedList, fmt.Sprintf("%s: %s", c.Short, c.Trusted))
 			continue
@@ -290,6 +298,9 @@ func cmdCheck(args []string) int {
 		r := verifyFunction(w, c)
 		results = append(results, r)
 		all = append(all, r.Obls...)
+	}
+	if tobs := w.checkTypes(prop); len(tobs) > 0 {
+		results = append(results, &FuncResult{Key: "type method sets", Obls: tobs})
 	}
 	if len(results) == 0 {
 		fmt.Fprintln(os.Stderr, "CHECK BROKEN: no function under contract for", prop)
@@ -432,11 +443,15 @@ func cmdCheck(args []string) int {
 	b, _ := json.MarshalIndent(ev, "", " ")
 	_ = os.WriteFile(filepath.Join(outDir(), "evidence", prop+".json"), b, 0o644)
 	fmt.Printf("%s: %d functions, %d obligations, %d discharged, %d violations, %.1fs\n", prop, len(results), nObl, nDis, violations, time.Since(start).Seconds())
-	if broken > 0 {
-		return 2
-	}
 	if violations > 0 {
 		return 1
+	}
+	for _, m := range staleMsgs {
+		fmt.Println("CHECK BROKEN (contract stale):", m)
+		broken++
+	}
+	if broken > 0 {
+		return 2
 	}
 	if nObl == 0 {
 		fmt.Println("CHECK BROKEN: zero obligations")
